@@ -214,6 +214,13 @@ func (self *Server) checkProtocol(stream *Stream) (ServerProtocol, error) {
 	if err != nil {
 		return nil, err
 	}
+	for n < 64 && buf[0] == 0x56 && (n < 2 || buf[1] == 0x01) {
+		rn, rerr := stream.Read(buf[n:])
+		if rerr != nil {
+			return nil, rerr
+		}
+		n += rn
+	}
 
 	mv := uint16(buf[0]) | uint16(buf[1])<<8
 	if n == 64 && mv == 0x0156 {
